@@ -60,4 +60,46 @@ THEOREM EndsAtEnd ==
     BY <1>3
   <2> QED BY <1>1, <2>1
 <1> QED BY <1>1, <1>2, <1>3
+
+\* every returned point lies inside the bounding box of the two end points (the clause of C02 for thin lines, and
+\* "connects its end points" of C17): for 0 <= a <= M the minor coordinate of the returned point is in 0 .. m
+LEMMA MulLe ==
+  ASSUME NEW m \in Nat, NEW a \in Nat, NEW M \in Nat, a <= M
+  PROVE  m * a <= m * M
+<1>1. PICK k \in Nat : a + k = M
+  <2>1. M - a \in Nat /\ a + (M - a) = M  OBVIOUS
+  <2> QED BY <2>1
+<1>2. m * M = m * a + m * k  BY <1>1
+<1>3. m * k >= 0 /\ m * k \in Int /\ m * a \in Int /\ m * M \in Int  OBVIOUS
+<1> QED BY <1>2, <1>3
+
+THEOREM ReturnedPointInsideBox ==
+  ASSUME NEW M \in Nat, NEW m \in Nat, M >= 1, m <= M, NEW a \in Nat, a <= M,
+         NEW b1 \in Int, NEW e1 \in Int, e1 = 2 * (m * a - M * b1), -M < e1, e1 <= M
+  PROVE  0 <= b1 /\ b1 <= m
+<1>1. PICK P \in Int : P = m * a  OBVIOUS
+<1>2. PICK Q \in Int : Q = M * b1  OBVIOUS
+<1>3. PICK R \in Int : R = m * M  OBVIOUS
+<1>4. 0 <= P /\ P <= R
+  <2>1. m * a >= 0  OBVIOUS
+  <2>2. m * a <= m * M  BY MulLe
+  <2> QED BY <2>1, <2>2, <1>1, <1>3
+<1>5. 2 * (P - Q) = e1  BY <1>1, <1>2
+<1>6. 0 <= b1
+  <2>1. CASE b1 <= -1
+    <3>1. M * b1 <= -M  BY <2>1
+    <3>2. Q <= -M  BY <3>1, <1>2
+    <3> QED BY <3>2, <1>4, <1>5
+  <2> QED BY <2>1
+<1>7. b1 <= m
+  <2>1. CASE b1 >= m + 1
+    <3>1. PICK k \in Nat : m + 1 + k = b1
+      <4>1. b1 - (m + 1) \in Nat /\ m + 1 + (b1 - (m + 1)) = b1  BY <2>1
+      <4> QED BY <4>1
+    <3>2. M * b1 = M * m + M + M * k  BY <3>1
+    <3>3. M * k >= 0 /\ M * k \in Int /\ M * m \in Int /\ M * m = m * M  OBVIOUS
+    <3>4. Q >= R + M  BY <3>2, <3>3, <1>2, <1>3
+    <3> QED BY <3>4, <1>4, <1>5
+  <2> QED BY <2>1
+<1> QED BY <1>6, <1>7
 =============================================================================
